@@ -1,15 +1,15 @@
 SPECIFICATION Spec
 CONSTANTS
-  Sizes = {4097, 8200}
-  Lays <- MC_LinesLays
-  Modes = {"r", "r+"}
-  RCounts = {1}
+  Sizes = {0, 2, 4100}
+  Lays <- MC_MultiLays
+  Modes = {"r", "r+", "in"}
+  RCounts = {2}
   WCounts <- MC_None
   SOffs = {0}
   VBufs <- MC_None
-  MFmts <- MC_None
+  MFmts <- MC_MultiFmts
   VSizes = {0}
-  Extra <- MC_AllExtra
+  Extra = {"readall", "close"}
   Naive = FALSE
   Gen = TRUE
 VIEW genview
